@@ -193,6 +193,7 @@ pub fn faultrun(args: &Args) -> i32 {
     };
 
     let opts = InstOpts {
+            detached: false,
         filter_seed: None,
         shared: None,
         obs_seed: seed ^ case,
